@@ -228,9 +228,10 @@ Section Py.
                             (fun l => ret (VDict (py_dict_of l))))
       | EJoinedStr parts => bind (py_pieces parts) (fun s => ret (VConst (CStr s)))
       | EFormattedValue v c spec =>
-          (* the expression, then the conversion (!s !r !a), then format() with the (evaluated) format spec *)
-          bind (ev v) (fun x => bind (do_conv c x) (fun y =>
-            bind (match spec with Some sp => ev sp | None => ret VEmptyStr end) (fun fmt => do_format y fmt)))
+          (* the expression and the expressions of the format spec are evaluated first; then the conversion (!s !r !a)
+             is applied to the value and the resulting string is formatted with the spec (CPython: one FORMAT_VALUE) *)
+          bind (ev v) (fun x => bind (match spec with Some sp => ev sp | None => ret VEmptyStr end) (fun fmt =>
+            bind (do_conv c x) (fun y => do_format y fmt)))
       end.
 
     (* 7.2 assignment of an object to a single target *)
